@@ -33,6 +33,9 @@ type evaluator struct {
 	// sliceHook, when set, may replace the selection of a slice on a given array (used to
 	// emulate recorded findings on particular representations, never for the property itself)
 	sliceHook func(arr []any, s []int) ([]int, bool)
+	// orderedMap, when set, says that the members of this map have a defined order in the
+	// representation at hand (a struct: field order, which is the sorted key order used here)
+	orderedMap func(m map[string]any) bool
 }
 
 func (ev *evaluator) feat(f string) { ev.res.Feat[f] = true }
@@ -59,6 +62,15 @@ func EvalMutationReading(p Path, data any, reading int) *Result {
 func EvalSliceHook(p Path, data any, hook func(arr []any, s []int) ([]int, bool)) *Result {
 	res := &Result{Ordered: true, Feat: map[string]bool{}}
 	ev := &evaluator{root: data, res: res, sliceHook: hook}
+	res.Locs = ev.path(p, data, nil, true)
+	return res
+}
+
+// EvalOrderedMaps evaluates the path like Eval but takes the member order of the maps that
+// ordered accepts as defined (sorted keys).
+func EvalOrderedMaps(p Path, data any, ordered func(m map[string]any) bool) *Result {
+	res := &Result{Ordered: true, Feat: map[string]bool{}}
+	ev := &evaluator{root: data, res: res, orderedMap: ordered}
 	res.Locs = ev.path(p, data, nil, true)
 	return res
 }
@@ -265,7 +277,7 @@ func (ev *evaluator) members(l Loc) []Loc {
 			out = append(out, Loc{extend(l.Path, i), e})
 		}
 	case map[string]any:
-		if len(tv) >= 2 {
+		if len(tv) >= 2 && (ev.orderedMap == nil || !ev.orderedMap(tv)) {
 			ev.res.Ordered = false
 		}
 		for _, k := range sortedKeys(tv) {
